@@ -87,6 +87,10 @@ class TreeLayout:
 
             return self
 
+        # Forget the contour thread a previous layout() call may have left on this node
+        if hasattr(node, "thread"):
+            del node.thread
+
         # Assign the `node.y`, note the left/right child nodes, and recurse
         node.y = level
         left = node.left
